@@ -1,28 +1,37 @@
 #!/bin/bash
-# c18.sh <quick|thorough|replay file>: instrument the CURRENT /repo sources, build the
-# schedule explorer with the overlay, and run it.
+# c18.sh <quick|thorough|replay file>: instrument the CURRENT library sources, build the
+# schedule explorer with the overlay, and run it. (VERIF_REPO: see check.sh)
 set -u
 cd "$(dirname "$0")"
 export GOFLAGS=-mod=mod GOPROXY=off GOSUMDB=off GOTOOLCHAIN=local
 export VERIF_ROOT="$PWD"
 TIER="${1:-quick}"
-mkdir -p bin .work evidence
-go build -o bin/vinstr ./cmd/vinstr || { echo "BUILD-FAILED vinstr"; exit 2; }
-./bin/vinstr /repo "$PWD/.work" || { echo "INSTRUMENTATION-FAILED (the tree does not parse; no verdict)"; exit 2; }
-if ! go build -tags verif -overlay "$PWD/.work/overlay.json" -o bin/vsched ./cmd/vsched 2> bin/build18.err; then
-  echo "BUILD-FAILED (instrumented tree does not compile; no verdict)"; cat bin/build18.err; exit 2
+REPO="${VERIF_REPO:-/repo}"
+TAG=main; MODFLAG=""
+mkdir -p bin evidence
+if [ "$REPO" != "/repo" ]; then
+  TAG=$(echo "$REPO" | md5sum | cut -c1-8)
+  mkdir -p .work
+  sed "s#=> /repo#=> $REPO#" go.mod > .work/alt_$TAG.mod; cp go.sum .work/alt_$TAG.sum
+  MODFLAG="-modfile=$PWD/.work/alt_$TAG.mod"
 fi
-if [ "$TIER" = "replay" ]; then exec ./bin/vsched replay "$2"; fi
-./bin/vsched explore "$TIER"
+WORK="$PWD/.work/c18_$TAG"; mkdir -p "$WORK"
+go build -o bin/vinstr_$TAG ./cmd/vinstr || { echo "BUILD-FAILED vinstr"; exit 2; }
+./bin/vinstr_$TAG "$REPO" "$WORK" || { echo "INSTRUMENTATION-FAILED (the tree does not parse; no verdict)"; exit 2; }
+if ! go build $MODFLAG -tags verif -overlay "$WORK/overlay.json" -o bin/vsched_$TAG ./cmd/vsched 2> bin/build18_$TAG.err; then
+  echo "BUILD-FAILED (instrumented tree does not compile; no verdict)"; cat bin/build18_$TAG.err; exit 2
+fi
+if [ "$TIER" = "replay" ]; then exec ./bin/vsched_$TAG replay "$2"; fi
+./bin/vsched_$TAG explore "$TIER"
 rc=$?
 if [ "$TIER" = "thorough" ] && [ $rc -eq 0 ]; then
   # supplementary, not the deciding step: the same bodies free-running under the race detector
-  if go build -race -tags verif -overlay "$PWD/.work/overlay.json" -o bin/vsched-race ./cmd/vsched 2> bin/build18r.err; then
+  if go build $MODFLAG -race -tags verif -overlay "$WORK/overlay.json" -o bin/vsched-race_$TAG ./cmd/vsched 2> bin/build18r_$TAG.err; then
     for p in 2 16; do
-      GOMAXPROCS=$p ./bin/vsched-race free 300 > bin/race_$p.out 2>&1
-      if grep -q "DATA RACE" bin/race_$p.out; then
-        mkdir -p violations/C18; cp bin/race_$p.out violations/C18/free_running_race_$p.txt
-        echo "VIOLATION property=C18 replay=$PWD/violations/C18/free_running_race_$p.txt"
+      GOMAXPROCS=$p ./bin/vsched-race_$TAG free 300 > bin/race_${TAG}_$p.out 2>&1
+      if grep -q "DATA RACE" bin/race_${TAG}_$p.out; then
+        OUT="${VERIF_OUT:-$PWD}"; mkdir -p "$OUT/violations/C18"; cp bin/race_${TAG}_$p.out "$OUT/violations/C18/free_running_race_$p.txt"
+        echo "VIOLATION property=C18 replay=$OUT/violations/C18/free_running_race_$p.txt"
         echo "  key=free-running|race-detector (an instrumentation gap: the explorer did not see this race)"
         rc=1
       fi
